@@ -211,13 +211,13 @@ def i_CWD(i, fmap):
 def i_CDQ(i, fmap):
     fmap[rip] = fmap[rip] + i.length
     x = fmap(eax).signextend(64)
+    # only edx is written (rax is left unchanged)
     fmap[rdx] = x[32:64].zeroextend(64)
-    fmap[rax] = x[0:32].zeroextend(64)
 
 
 def i_CQO(i, fmap):
     fmap[rip] = fmap[rip] + i.length
-    x = fmap(eax).signextend(128)
+    x = fmap(rax).signextend(128)
     fmap[rdx] = x[64:128]
     fmap[rax] = x[0:64]
 
